@@ -195,8 +195,8 @@ def r4_parsed_values_only(ctx):
 
 
 RULES = [
-    Rule('C12.R1', 'no literal delimiter on the input path beyond the enumerated, re-verified exemptions', r1_literal_delimiters, floor=5),
-    Rule('C12.R2', 'acknowledgement delimiters are literals; the input terminators flow nowhere in the visitors', r2_ack_delimiters, floor=10),
-    Rule('C12.R3', 'delimiter provenance, CR/LF strip set, ISA not sub-split (shared with C01.R4-R6)', r3_shared_with_c01, floor=24),
-    Rule('C12.R4', 'validation never inspects re-formatted text', r4_parsed_values_only, floor=2),
+    Rule('C12.R1', 'no literal delimiter on the input path beyond the enumerated, re-verified exemptions', r1_literal_delimiters, floor=3),
+    Rule('C12.R2', 'acknowledgement delimiters are literals; the input terminators flow nowhere in the visitors', r2_ack_delimiters, floor=7),
+    Rule('C12.R3', 'delimiter provenance, CR/LF strip set, ISA not sub-split (shared with C01.R4-R6)', r3_shared_with_c01, floor=18),
+    Rule('C12.R4', 'validation never inspects re-formatted text', r4_parsed_values_only, floor=1),
 ]
